@@ -383,6 +383,16 @@ impl Store {
         }
     }
 
+    /// Removes value-less, childless nodes along the given path
+    fn ntrim_path(node: &mut StoreNode, relative_path: &[RegularKeySegment]) {
+        if let Some((head, tail)) = relative_path.split_first()
+            && let Some(next) = node.get_child_mut(head)
+        {
+            Store::ntrim_path(next, tail);
+            node.trim();
+        }
+    }
+
     /// retrieve values for a key containing at least one single-level wildcard and possibly a multi-level wildcard
     pub fn get_matches(&self, path: &[KeySegment]) -> StoreResult<Vec<KeyValuePair>> {
         let mut matches = Vec::new();
@@ -768,53 +778,62 @@ impl Store {
             current_subscribers = current_subscribers.and_then(|node| node.tree.get(elem));
         }
 
-        let (value_existed, value_changed, value) = match (current_node.value(), value, force) {
+        let decision = match (current_node.value(), value, force) {
             (None, ValueEntry::Plain(v), _) => {
                 // no value present, we can always insert plain value
-                (false, true, ValueEntry::Plain(v))
+                Ok((false, true, ValueEntry::Plain(v)))
             }
             (None, ValueEntry::Cas(value, 0), _) | (None, ValueEntry::Cas(value, _), true) => {
                 // no value present, we can insert cas value if version is 0 or insertion is forced
-                (false, true, ValueEntry::Cas(value, 1))
+                Ok((false, true, ValueEntry::Cas(value, 1)))
             }
             (None, ValueEntry::Cas(_, _), false) => {
                 // no value present, we cannot insert cas value if version != 0 and insertion is not forced
-                return Err(StoreError::CasVersionMismatch);
+                Err(StoreError::CasVersionMismatch)
             }
             (Some(ValueEntry::Plain(current)), ValueEntry::Plain(val), _) => {
                 // plain value present, we can always insert plain value
-                (true, current != &val, ValueEntry::Plain(val))
+                Ok((true, current != &val, ValueEntry::Plain(val)))
             }
             (Some(ValueEntry::Plain(current)), ValueEntry::Cas(val, 0), _)
             | (Some(ValueEntry::Plain(current)), ValueEntry::Cas(val, _), true) => {
                 // plain value present, we can insert cas value if version is 0 or insertion is forced
-                (true, current != &val, ValueEntry::Cas(val, 1))
+                Ok((true, current != &val, ValueEntry::Cas(val, 1)))
             }
             (Some(ValueEntry::Plain(_)), ValueEntry::Cas(_, _), false) => {
                 // plain value present, we cannot insert cas value if version != 0 and insertion is not forced
-                return Err(StoreError::CasVersionMismatch);
+                Err(StoreError::CasVersionMismatch)
             }
             (Some(ValueEntry::Cas(current, _)), ValueEntry::Plain(val), true) => {
                 // cas value present, we can insert plain value if insertion is forced
-                (true, current != &val, ValueEntry::Plain(val))
+                Ok((true, current != &val, ValueEntry::Plain(val)))
             }
             (Some(ValueEntry::Cas(_, _)), ValueEntry::Plain(_), false) => {
                 // cas value present, we cannot insert plain value
-                return Err(StoreError::Cas);
+                Err(StoreError::Cas)
             }
             (Some(ValueEntry::Cas(current, _)), ValueEntry::Cas(val, v), true) => {
                 // cas value present, we can insert new cas value if insertion is forced
-                (true, current != &val, ValueEntry::Cas(val, v + 1))
+                Ok((true, current != &val, ValueEntry::Cas(val, v + 1)))
             }
             (Some(ValueEntry::Cas(current, v_curr)), ValueEntry::Cas(val, v), false)
                 if v_curr == &v =>
             {
                 // cas value present, we can insert new cas value if the version matches
-                (true, current != &val, ValueEntry::Cas(val, v + 1))
+                Ok((true, current != &val, ValueEntry::Cas(val, v + 1)))
             }
             (Some(ValueEntry::Cas(_, _)), ValueEntry::Cas(_, _), false) => {
                 // cas value present, we cannot insert cas value if versions do not match and insertion is not forced
-                return Err(StoreError::CasVersionMismatch);
+                Err(StoreError::CasVersionMismatch)
+            }
+        };
+
+        let (value_existed, value_changed, value) = match decision {
+            Ok(it) => it,
+            Err(e) => {
+                // a rejected write must not leave the (empty) nodes behind that were created for its path
+                Store::ntrim_path(&mut self.data, path);
+                return Err(e);
             }
         };
 
